@@ -245,6 +245,19 @@ class MultiMatcher(mcore.Matcher):
     def block_quality(self):
         return self.matchers[self.current].block_quality()
 
+    def skip_to_quality(self, minquality):
+        skipped = 0
+        while self.is_active() and self.block_quality() <= minquality:
+            mr = self.matchers[self.current]
+            sk = mr.skip_to_quality(minquality)
+            skipped += sk
+            if not mr.is_active():
+                self._next_matcher()
+            elif not sk:
+                # The sub-matcher could not move any further
+                break
+        return skipped
+
     def weight(self):
         return self.matchers[self.current].weight()
 
